@@ -283,6 +283,18 @@ def run_scenario(scn, workdir, scheme='structural', name_tables=False, plan=None
     conf = materialise(scn, d, scheme, name_tables)
     if damage == 'missing_csv_dir':
         conf['csv_result_path'] = str(d / 'out' / 'run_07' / 'tables' / 'res.csv')
+    if damage == 'long_csv_name':
+        # a file name no file system accepts, inside the existing output directory
+        conf['csv_result_path'] = str(d / 'out' / ('r' * 300 + '.csv'))
+    if damage == 'stats_without_sum':
+        with h5py.File(conf['precomputed_stats']['path'], 'a') as f:
+            del f['sum']
+    if damage == 'obsm_taken':
+        a = anndata.read_h5ad(conf['query_path'])
+        a.obsm['ctm'] = np.zeros((a.n_obs, 2))
+        a.write_h5ad(conf['query_path'])
+        conf['obsm_key'] = 'ctm'
+        conf['obsm_clobber'] = False
     if damage == 'no_tmp_dir':
         # no scratch directory configured: the result buffer is created in extended_result_dir
         conf['tmp_dir'] = None
